@@ -406,10 +406,29 @@ def r3_no_rng(ctx):
         ctx.obs.append(o)
 
 
+def r5_exact_accumulation(ctx):
+    """Reordering, splitting and merging ballots leave tallies unchanged only if weights and
+    accumulators are exact rationals (Fraction addition is associative, float addition is not; a
+    rounded weight is not additive). Re-states C04.R1/R2 (scoring accumulators) and C11.R2 (weights)."""
+    from rules import c04, c11
+    n = 0
+    for fn, keep in ((c04.r1_exact, lambda o: True), (c04.r2_allocation, lambda o: True), (c11.r2_validators, lambda o: "weight" in o.construct)):
+        sub = type(ctx)(ctx.prog, ctx.prop, ctx.tier)
+        fn(sub)
+        for o in sub.obs:
+            if keep(o):
+                o.rule = "C08.R5"
+                ctx.obs.append(o)
+                n += 1
+    if n < 10:
+        ctx.vanished(f"exact-accumulation obligations: only {n}")
+
+
 RULES = [
     ("C08.R1", r1_ordering_primitives, 4, "no ordering primitive over candidate names / candidates-by-score outside the grouping idiom; no hash()/id()"),
     ("C08.R2", r2_positional_picks, 8, "no positional pick from an unordered collection without a singleton proof"),
     ("C08.R3", r3_no_rng, 20, "no RNG reachable on deterministic paths (= C10.R1)"),
+    ("C08.R5", r5_exact_accumulation, 10, "tallies are accumulated in exact rationals and weights are stored exactly (order / split / merge independence)"),
     ("C08.R4", r4_recorded_order, 20, "the tuple order of every recorded group has a classified, iteration-order-free origin"),
 ]
 
@@ -427,6 +446,9 @@ FAULTS = [
     ("pick from top tier without guard", [(PG, "        if self.has_condorcet_winner():\n            return list(self.dominating_tiers()[0])[0]", "        if len(self.dominating_tiers()) >= 1:\n            return list(self.dominating_tiers()[0])[0]")], "C08.R2"),
     ("plurality records list(set) order", [(PL, "                elected=elected,", "                elected=tuple(frozenset({c}) for c in set(c for s in elected for c in s)),")], "C08.R4"),
     ("dominating sets remaining from a set", [(DS, "remaining = tuple([frozenset(s) for s in dominating_tiers[1:]])", "remaining = tuple(set(frozenset(s) for s in dominating_tiers[1:]))")], "C08.R4"),
+    ("float accumulation under to_float", [(UT, "                    scores[c] += Fraction(allocation) * ballot.weight", "                    scores[c] += float(allocation * ballot.weight) if to_float else Fraction(allocation) * ballot.weight")], "C08.R5"),
+    ("every weight rounded", [("src/votekit/ballot.py", "        if not isinstance(weight, Fraction):\n            weight = Fraction(weight).limit_denominator()\n        return weight", "        return Fraction(weight).limit_denominator()")], "C08.R5"),
+    ("zero-vote ties eliminated in hash order", [(STV, "            if len(lowest_fpv_cands) > 1:\n                tiebroken_ranking = tiebreak_set(", "            if len(lowest_fpv_cands) > 1 and prev_state.scores[list(lowest_fpv_cands)[0]] > 0:\n                tiebroken_ranking = tiebreak_set(")], "C08.R2"),
     ("hash-based tiebreak", [(UT, "            frozenset({c}) for c in random.sample(list(r_set), k=len(r_set))", "            frozenset({c}) for c in sorted(r_set, key=lambda c: hash(c))")], "C08.R1"),
     ("next(iter()) pick", [(STV, "            c = list(s)[0]  # all cands in set have same score\n            if prev_state.scores[c] >= self.threshold:\n                elected.append(s)", "            c = next(iter(s))\n            if prev_state.scores[c] >= self.threshold:\n                elected.append(frozenset({c}))")], "C08.R"),
 ]
